@@ -1,5 +1,5 @@
 """C12 - predictions equal their documented pairwise-Gaussian closed forms (reference-model monitor)."""
-from ..predprobe import gen_pred_case, call_pred
+from ..predprobe import gen_pred_case, call_pred, scribble
 from ..rateprobe import exc_detail
 from ..util import KIND
 from ..refmodel import ref_predict
@@ -54,6 +54,8 @@ def probe_p(ctx, payload):
         ctx.ev("shape")
         ctx.violation("shape", "p", payload, dict(err=repr(e), got=repr(got)[:300]), model, reg)
         return
+    scribble(got["predict_win"])  # numbers were copied out above; the returned lists belong to the caller
+    scribble(got["predict_rank"])
     for name, g, r in (("win", win, rw), ("rank", rank, rr)):
         for i in range(k):
             ctx.ev(name)
